@@ -383,7 +383,7 @@ def run(ctx):
             ge = call(c.get_exon, r, A, pos)
             cases.append(("(((%s, %s), (%s, %s)), (((((%s, %s), %s), %s), %s), %s))" % (civs(A), civs(B), civ(r), cz(pos), cout(st, cz), cout(sf, cz), cfo(cv), cfo(j), cout(m, civs), cout(ge, civ)),
                           {"A": A, "B": B, "pos": pos, "sum_to": st, "sum_from": sf, "coverage": cv, "jaccard": j, "merge": m, "get_exon(region (0,9), A, pos)": ge}))
-    ctx.rule("regenerated functions with while loops (gen/Loops.v, fuel 60: sum_intervals_to_point, sum_intervals_from_point, read_coverage_fraction, jaccard_similarity, merge_ranges; and get_exon): pairs of lists of <=2 intervals over 5 positions + unsorted / overlapping / inverted lists x 5 positions, + random lists of up to 12 intervals; bridged to the hand models for all inputs by C19_*_is_the_source except jaccard_similarity / merge_ranges (translated only)")
+    ctx.rule("regenerated functions with while loops (gen/Loops.v, fuel 60: sum_intervals_to_point, sum_intervals_from_point, read_coverage_fraction, jaccard_similarity, merge_ranges; and get_exon): pairs of lists of <=2 intervals over 5 positions + unsorted / overlapping / inverted lists x 5 positions, + random lists of up to 12 intervals; all bridged to the hand models for all inputs and every sufficient fuel by C19_*_is_the_source (jaccard_similarity / merge_ranges by a simulation on the included arrays)")
     mism, viol = ctx.corr("translated_while", PRE_WHILE, cases, shard=800, nontrivial=lambda o: len(o["A"]) > 0 and len(o["B"]) > 0, ctype="T")
     ctx.corr_report("translated_while", mism, viol)
 
